@@ -215,3 +215,40 @@ func VH_C05_drop_and_commands() {
 		vassert("C05.drop_candidate", vhCandidate(s, &d3, h))
 	}
 }
+
+// VH_C05_nearby_fence: a NEARBY (circle) fence, point and rectangle objects: inside = the object touches the
+// circle (a rectangle straddling the edge is inside), whatever other objects did before (an earlier
+// outside->outside move of another object runs the 'cross' evaluation of the same fence).
+var vhNearObjs = [][]string{
+	{"POINT", "10.01", "10.01"},                        // inside
+	{"POINT", "11", "11"},                              // outside
+	{"BOUNDS", "10.03", "10.03", "10.12", "10.12"},     // straddles the edge of the 5 km circle: inside
+	{"BOUNDS", "10", "10", "10.01", "10.01"},           // inside
+	{"BOUNDS", "10.2", "10.2", "10.3", "10.3"},         // outside, same side as the outside point
+}
+var vhNearInside = []bool{true, false, true, true, false}
+
+//verif:cfg b_fence=NEARBY_POINT_10_10_5000m b_objects=point|rectangle_x_inside|outside|straddling b_moves=5x5 b_before=nothing|another_object_moved_outside_to_outside b_receivers=channel_(as_delivered_by_queueHooks) ignorego=1
+func VH_C05_nearby_fence() {
+	s := vhServer()
+	_, _, err := vhDo(s, "SETCHAN", "ch", "NEARBY", "fleet", "FENCE", "POINT", "10", "10", "5000")
+	vassert("C05.N.setchan_ok", err == nil)
+	h := vhHook(s, "ch")
+	if vnondetBool() {
+		_, d0, _ := vhDo(s, "SET", "fleet", "car", "POINT", "0", "0")
+		vhDelivered(s, &d0, h)
+		_, d1, _ := vhDo(s, "SET", "fleet", "car", "POINT", "0.1", "0.1")
+		got := vhDelivered(s, &d1, h)
+		vassert("C05.N.far_move_is_outside", vhSameStrings(got, []string{"outside"}))
+		vreach("other-object-moved")
+	}
+	p1, p2 := vchoose(len(vhNearObjs)), vchoose(len(vhNearObjs))
+	_, d2, _ := vhDo(s, append([]string{"SET", "fleet", "truck"}, vhNearObjs[p1]...)...)
+	var all [5]bool
+	vassert("C05.N.first_set_delivered", vhSameStrings(vhDelivered(s, &d2, h), vhExpected(false, vhNearInside[p1], false, all, true)))
+	_, d3, _ := vhDo(s, append([]string{"SET", "fleet", "truck"}, vhNearObjs[p2]...)...)
+	vassert("C05.N.move_delivered", vhSameStrings(vhDelivered(s, &d3, h), vhExpected(vhNearInside[p1], vhNearInside[p2], false, all, true)))
+	_, d4, _ := vhDo(s, "FSET", "fleet", "truck", "speed", "9")
+	vassert("C05.N.fset_delivered", vhSameStrings(vhDelivered(s, &d4, h), vhExpected(vhNearInside[p2], vhNearInside[p2], false, all, true)))
+	vobs("nearbyfence", p1, p2)
+}
